@@ -5,6 +5,7 @@ use crate::sut::{self, SutConfig};
 use bitcoin::hashes::{sha256d, Hash};
 use bitcoin::{Block, BlockHash, OutPoint, Transaction, Txid};
 use ic_btc_validation::{BlockValidator, HeaderStore};
+use ic_btc_canister as can;
 use proptest::prelude::*;
 use serde::{Deserialize, Serialize};
 use std::time::Duration;
@@ -169,7 +170,7 @@ impl Property for C12 {
         }
     }
     fn rule(&self) -> String {
-        "Valid mined regtest blocks with 1..40 transactions (odd counts, powers of two and neighbours, witness and legacy) and mutations: merkle-preserving duplication of the last node at every tree level (CVE-2012-2459 family), swaps, removals, arbitrary duplications, witness-only edits, coinbase not first, empty body, second coinbase; each with the original header or with recomputed merkle root and re-mined header. Oracle (own double-SHA256 merkle over txids): accepted => non-empty, first is coinbase, own merkle = header root, txids pairwise distinct; sound and witness-free and transaction-valid => accepted; every merkle-preserving duplication => rejected. BlockValidator is called directly; the canister's insert_block path is used as well where it cannot trap by design (expected rejections and coinbase-only blocks). Non-trivial: a merkle-preserving mutation of a block with >= 3 transactions, or a mutation with recomputed header; distinct = (n, mutation, seed) hashes.".into()
+        "Valid mined regtest blocks with 1..40 transactions (odd counts, powers of two and neighbours, witness and legacy) and mutations: merkle-preserving duplication of the last node at every tree level (CVE-2012-2459 family), swaps, removals, arbitrary duplications, witness-only edits, coinbase not first, empty body, second coinbase; each with the original header or with recomputed merkle root and re-mined header. Oracle (own double-SHA256 merkle over txids): accepted => non-empty, first is coinbase, own merkle = header root, txids pairwise distinct; sound and witness-free and transaction-valid => accepted; every merkle-preserving duplication => rejected. BlockValidator is called directly; the canister's insert_block path is used as well where it cannot trap by design (expected rejections and coinbase-only blocks), in half of those cases after the block's header was announced and stored as a next-block header. Non-trivial: a merkle-preserving mutation of a block with >= 3 transactions, or a mutation with recomputed header; distinct = (n, mutation, seed) hashes.".into()
     }
     fn assumptions(&self) -> Vec<String> {
         vec![
@@ -178,7 +179,7 @@ impl Property for C12 {
         ]
     }
     fn required_classes(&self, _tier: Tier) -> Vec<&'static str> {
-        vec!["merkle_preserving_dup", "merkle_preserving_dup_level_ge_1", "valid_accepted", "rejected_bad_merkle", "rejected_no_coinbase", "rejected_empty", "via_canister"]
+        vec!["merkle_preserving_dup", "merkle_preserving_dup_level_ge_1", "valid_accepted", "rejected_bad_merkle", "rejected_no_coinbase", "rejected_empty", "via_canister", "via_canister_header_announced_first"]
     }
     fn run(&self, case: &Case12) -> Outcome {
         let mut out = Outcome::default();
@@ -312,6 +313,22 @@ impl Property for C12 {
             out.class("via_canister");
             sut::reset(&SutConfig::new(net, 2));
             out.checks += 1;
+            // In half of the cases the block's header has been announced (and stored) before the
+            // block itself arrives: the body checks must not depend on that.
+            if case.seed & 1 == 1 {
+                let blob = crate::hb::header_blob(&bitcoin::consensus::serialize(&block.header));
+                let stored = sut::guarded(|| {
+                    can::with_state_mut(|s| {
+                        can::state::insert_next_block_headers(s, &[blob]);
+                        s.unstable_blocks.has_next_block_header(&block.header)
+                    })
+                });
+                match stored {
+                    Ok(true) => out.class("via_canister_header_announced_first"),
+                    Ok(false) => {}
+                    Err(p) => out.fail(format!("{desc}: announcing the header trapped: {p}")),
+                }
+            }
             match sut::insert_validated(&block, None) {
                 Err(p) => out.fail(format!("{desc}: insert_block trapped: {p}")),
                 Ok(r) => {
